@@ -107,7 +107,7 @@ impl Engine for SyncEngine {
         "C13"
     }
     fn budget(&self) -> (u64, u64) {
-        (30_000, 300)
+        (40_000, 300)
     }
 
     fn generate(&self, seed: u64, tier: Tier) -> Case<SyncCfg, SyncOp> {
